@@ -136,3 +136,32 @@ Print Assumptions C05_create_only_missing_depth1.
 Print Assumptions C05_create_never_alters_existing_run.
 Print Assumptions C05_create_never_alters_existing_leaf.
 Print Assumptions C05_create_never_alters_existing_dict.
+
+(* values in which lists / tuples, dict displays and constructor calls are nested in each other at ANY depth (Model/Nest.v): a run in which fix is not
+   approved - in particular an update, which rewrites non-canonical leaves, deletes keyword arguments that spell out the default of their field and
+   regenerates dict displays that repeat a key - never changes the value the argument evaluates to (Python's ==), whatever is observed.  Premises: no
+   call of the source repeats a keyword, the observed value is well-formed, the class table names every field once and its defaults are well-formed. *)
+From V Require Model.Nest Proofs.NestProofs Proofs.NestValue Proofs.NestFix Proofs.NestEqual Proofs.NestUpdate.
+Theorem C05_nest_update_value_preserving :
+  forall (ct : Nest.ctab) (f : nat) (F : flags) (o : Nest.ntree) (n : Nest.nval),
+  NestUpdate.ct_wf ct -> NestFix.ct_ok ct -> NestUpdate.wfk o = true -> NestFix.okv ct n = true -> f_fix F = false ->
+  Nest.val_eqb (Nest.eval_r ct (Nest.assign ct f F o n)) (Nest.eval ct o) = true.
+Proof. exact NestUpdate.nest_nofix_value. Qed.
+(* == on well-formed values is symmetric and transitive (dicts are compared as finite maps) *)
+Theorem C05_nest_eq_sym :
+  forall a b : Nest.nval, NestValue.wfv a = true -> NestValue.wfv b = true -> Nest.val_eqb a b = true -> Nest.val_eqb b a = true.
+Proof. exact NestUpdate.val_eqb_sym. Qed.
+Theorem C05_nest_eq_trans :
+  forall a b c : Nest.nval, Nest.val_eqb a b = true -> Nest.val_eqb b c = true -> Nest.val_eqb a c = true.
+Proof. exact NestUpdate.val_eqb_trans. Qed.
+(* the premises hold for a non-trivial input, and the update-only run does change the text there *)
+Theorem C05_nest_update_premises_hold :
+  NestUpdate.wfk NestEqual.ex_old = true /\ NestFix.okv NestEqual.ex_ct NestEqual.ex_new = true /\
+  Nest.val_eqb (Nest.eval_r NestEqual.ex_ct (Nest.assign_nest NestEqual.ex_ct {| f_create := false; f_fix := false; f_trim := false; f_update := true |} NestEqual.ex_old NestEqual.ex_new))
+               (Nest.eval NestEqual.ex_ct NestEqual.ex_old) = true /\
+  NestProofs.verbatim (Nest.assign_nest NestEqual.ex_ct {| f_create := false; f_fix := false; f_trim := false; f_update := true |} NestEqual.ex_old NestEqual.ex_new) <> Some NestEqual.ex_old.
+Proof. exact NestUpdate.nest_update_premises_hold. Qed.
+Print Assumptions C05_nest_update_value_preserving.
+Print Assumptions C05_nest_eq_sym.
+Print Assumptions C05_nest_eq_trans.
+Print Assumptions C05_nest_update_premises_hold.
